@@ -258,16 +258,35 @@ def main():
         a = rand_ty(r, 2 + r.below(3))
         b = a if r.chance(1, 6) else (vary(r, a) if r.chance(2, 3) else rand_ty(r, 2 + r.below(3)))
         pairs.append((a, b))
+    # chains of pointers and views over a type, against what autoderef may read them as
+    for i in range(30000 if thorough else 6000):
+        r = rng.fork("chain%d" % i)
+        base = r.pick(d01)
+        a = base
+        for _ in range(1 + r.below(3)):
+            a = r.pick(["(pointer %s)", "(pointer %s)", "(view %s)"]) % a
+        b = base
+        k = r.below(6)
+        if k == 0:
+            for _ in range(r.below(3)):
+                b = r.pick(["(pointer %s)", "(view %s)"]) % b
+        elif k == 1:
+            b = r.pick(["(slice %s)", "(sliceptr %s)", "(pointer (endless %s))", "(view (endless %s))"]) % r.pick(LEAVES)
+        elif k == 2:
+            b = vary(r, a)
+        elif k == 3:
+            b = r.pick(["(pointer %s)", "(view %s)"]) % vary(r, base)
+        pairs.append((a, b))
     am = run_model(["agree\t(agree %s %s)" % ab for ab in pairs])
     ah2 = run_harness(["agree\t%s\t%s" % ab for ab in pairs])
     for (a, b), ma, ha in zip(pairs, am, ah2):
         total += 1
-        dist["agree-relations:" + ("same" if a == b else "different") + ":" + ma.replace("declared=", "d").replace(" conc=", "c").replace(" coerce=", "o").replace(" coerceaddr=", "a")] += 1
+        dist["agree-relations:" + ("same" if a == b else "different") + ":" + ma.replace("declared=", "d").replace(" conc=", "c").replace(" coerce=", "o").replace(" coerceaddr=", "a").replace(" autoderef=", "r")] += 1
         if ma == ha and not ma.startswith("bad"):
             agreeing += 1
         else:
             rep.violation("agree-relations:%s:%s" % (a, b), {
-                "why": "can_be_declared_as / can_be_concretization_of / can_coerce_into / can_coerce_address_into on this pair of "
+                "why": "can_be_declared_as / can_be_concretization_of / can_coerce_into / can_coerce_address_into / can_autoderef_into on this pair of "
                        "types differ between value_type.rs and the Lean model",
                 "types": [a, b], "model": ma, "implementation": ha, "model_request": "agree\t(agree %s %s)" % (a, b),
                 "harness_request": "agree\t%s\t%s" % (a, b)})
